@@ -15,10 +15,13 @@ import (
 	"errors"
 	"fmt"
 	"io"
+	"log"
 	"math/big"
 	"net"
+	"os"
 	"strings"
 	"sync"
+	"syscall"
 	"time"
 
 	"github.com/emersion/go-smtp"
@@ -89,6 +92,10 @@ func (p *PKI) Cert(host, kind string) tls.Certificate {
 		panic("peers: unknown certificate kind " + kind)
 	}
 	c := tls.Certificate{Certificate: [][]byte{der}, PrivateKey: key, Leaf: leaf}
+	if kind != "selfsigned" {
+		// the issuing CA travels with the leaf so that DANE-TA records can name it
+		c.Certificate = append(c.Certificate, p.Root.Raw)
+	}
 	p.cache[k] = c
 	return c
 }
@@ -183,6 +190,7 @@ func (w *World) Add(sc Script) {
 	s.srv.AllowInsecureAuth = true
 	s.srv.ReadTimeout = 30 * time.Second
 	s.srv.WriteTimeout = 30 * time.Second
+	s.srv.ErrorLog = log.New(io.Discard, "", 0)
 	switch sc.TLS {
 	case "":
 	case "broken":
@@ -223,9 +231,33 @@ func (w *World) Dial(ctx context.Context, network, addr string) (net.Conn, error
 	if s == nil || s.script.Down {
 		return nil, &net.OpError{Op: "dial", Net: network, Addr: pipeAddr(addr), Err: errors.New("connection refused")}
 	}
-	cl, sv := net.Pipe()
+	cl, sv, err := socketPair()
+	if err != nil {
+		return nil, err
+	}
 	s.l.conns <- sv
 	return cl, nil
+}
+
+// socketPair returns the two ends of a kernel-buffered stream (net.Pipe is
+// synchronous, and a TLS 1.3 handshake in which both sides write at once
+// deadlocks on it).
+func socketPair() (net.Conn, net.Conn, error) {
+	fds, err := syscall.Socketpair(syscall.AF_UNIX, syscall.SOCK_STREAM|syscall.SOCK_CLOEXEC, 0)
+	if err != nil {
+		return nil, nil, err
+	}
+	var out [2]net.Conn
+	for i, fd := range fds {
+		f := os.NewFile(uintptr(fd), "peers-socketpair")
+		c, err := net.FileConn(f)
+		f.Close()
+		if err != nil {
+			return nil, nil, err
+		}
+		out[i] = c
+	}
+	return out[0], out[1], nil
 }
 
 // Txns returns the recorded transactions in the order they started.
